@@ -67,6 +67,19 @@ def dry_keys(spec):
     return keys, bodies, uploads_bodies, ok
 
 
+SERVICE_CODES = {
+    'CompleteMultipartUpload': ['NoSuchUpload:404', 'InvalidPart:400', 'EntityTooSmall:400'],
+    'UploadPart': ['NoSuchUpload:404'],
+    'UploadPartCopy': ['NoSuchUpload:404', 'PreconditionFailed:412'],
+    'CreateMultipartUpload': ['NoSuchBucket:404'],
+    'PutObject': ['PreconditionFailed:412', 'EntityTooLarge:400'],
+    'GetObject': ['NoSuchKey:404', 'PreconditionFailed:412', 'InvalidRange:416', 'InvalidObjectState:403'],
+    'HeadObject': ['NoSuchKey:404', 'NotFound:404', 'PreconditionFailed:412'],
+    'CopyObject': ['NoSuchKey:404', 'PreconditionFailed:412'],
+    'DeleteObject': ['NoSuchKey:404', 'NoSuchVersion:404'],
+}
+
+
 def faults_for_key(key, bodies, upload_bodies, quick):
     out = []
     if '/cb:on_done' in key or '/fs:remove' in key or 'AbortMultipartUpload' in key or '/pp:' in key:
@@ -81,6 +94,10 @@ def faults_for_key(key, bodies, upload_bodies, quick):
             n = upload_bodies[key]
             for b in sorted({0, n // 2, n}):
                 out.append({'at': key, 'phase': 'mid', 'kind': 'exc', 'bytes': b})
+        # service error codes that read like "nothing to do" (the upload / key is gone, a precondition failed): failures like any other
+        op = key.split('/s3:')[1].split('#')[0].split(':')[0]
+        for code in SERVICE_CODES.get(op, ()):
+            out.append({'at': key, 'phase': 'before', 'kind': 'code:' + code})
         # a non-connection OSError (EIO, EPERM, ENOSPC...) is not a retryable stream error
         out.append({'at': key, 'phase': 'before', 'kind': 'oserror'})
         # an exception of a type the library gives a meaning to (CancelledError = concurrent.futures.CancelledError, FatalError)
@@ -147,6 +164,26 @@ def gen_cases(tier, seed):
                     s['seed'] = rng.randrange(1 << 30)
                     s['plan'] = {'faults': [{'at': f'{rng_key}#{j}', 'phase': 'body', 'kind': kind,
                                              'bytes': rng.choice([0, 1, n // 2, n]), 'tag': f'FAULT-{bi}-r{j}'} for j in range(nf)]}
+                    cases.append(s)
+            # the budget is shared by both kinds of retryable failure: the request itself failing with a connection error, and the
+            # response body failing while it is read - mixed in either order, exactly `attempts` of them exhaust it
+            for nf in (attempts - 1, attempts):
+                if nf < 2 and nf != attempts:
+                    continue
+                for rep in range(1 if quick else 3):
+                    phases = [rng.choice(['before', 'body']) for _ in range(nf)]
+                    if nf >= 2 and len(set(phases)) == 1:
+                        phases[rng.randrange(nf)] = 'body' if phases[0] == 'before' else 'before'
+                    fl = []
+                    for j, ph in enumerate(phases):
+                        if ph == 'before':
+                            fl.append({'at': f'{rng_key}#{j}', 'phase': 'before', 'kind': 'connreset', 'tag': f'FAULT-{bi}-q{j}'})
+                        else:
+                            fl.append({'at': f'{rng_key}#{j}', 'phase': 'body', 'kind': rng.choice(STREAM_KINDS), 'bytes': rng.choice([0, 1, n // 2, n]),
+                                       'tag': f'FAULT-{bi}-r{j}'})
+                    s = copy.deepcopy(base)
+                    s['seed'] = rng.randrange(1 << 30)
+                    s['plan'] = {'faults': fl}
                     cases.append(s)
         if not quick:
             pairs = list(itertools.combinations(range(len(singles)), 2))
